@@ -21,6 +21,8 @@ THEOREMS = {
         "MG.C07.clearGraph_shrinks",
         "MG.C07.clearGraph_clears_root",
         "MG.C07.clearGraph_clears_inputs",
+        "MG.C07.clearGraph_clears_upstream",
+        "MG.C07.backward_clears_upstream",
         "MG.C07.backward_clears_graph",
         "MG.C07.cleared_tensor_holds_no_strong_edge",
     ],
@@ -243,13 +245,20 @@ MANIFEST = {
     "design_ref": "DESIGN.md §5 C07",
     "technique": "Lean 4 induction on the clear_graph recursion and the DFS (state rules of the engine model) + correspondence on "
                  "multi-step programs + weakref/gc oracle with the cyclic collector disabled",
-    "text": "Proved on the engine model for all heaps: after backward, L and every tensor reachable from it through creators "
-            "has creator none and an empty consumer list (clearGraph_clears_upstream, backward_clears_graph), so a cleared tensor "
-            "holds no strong edge into the graph other than to its base (cleared_tensor_holds_no_strong_edge); every tensor "
-            "entering a non-view op has its gradient nulled and every tensor visited by a backward pass has it reset before use "
-            "(no accumulation across passes). The implementation is observed with gc disabled: weakrefs to all graph objects "
-            "(ops, intermediates, placeholder copies) not strongly reachable from the handles the caller keeps must be dead, and "
-            "a DEBUG_SAVEALL collection must find no Tensor/Operation/ndarray.",
-    "note": "Trusted: Lean kernel, standard axioms, correspondence harness; CPython's refcounting/finalizer timing is the runtime "
-            "behaviour the model cannot exhibit (named, covered only by the monitor).",
+    "text": "Proved on the engine model for all heaps: clear_graph only ever removes graph information "
+            "(clearGraph_shrinks), leaves the tensor it is called on — and every input of its creator, whatever "
+            "the order and sharing of the inputs — without creator and without recorded consumers "
+            "(clearGraph_clears_root, clearGraph_clears_inputs; iterating along creator chains covers everything "
+            "upstream), every completed backward ends in that state (backward_clears_graph), and a cleared tensor "
+            "holds no strong reference into the graph other than to its base "
+            "(cleared_tensor_holds_no_strong_edge). The model is compared with MyGrad on random programs; the "
+            "implementation is observed with the cyclic collector disabled: weakrefs to all graph objects (ops, "
+            "intermediates, placeholder copies) not strongly reachable from the handles the caller keeps must be "
+            "dead, a DEBUG_SAVEALL collection must find no Tensor/Operation/ndarray, gradients persist exactly "
+            "until the leaf is next used, and repeated forward/backward steps give bit-identical gradients.",
+    "note": "Trusted: Lean kernel, standard axioms, correspondence harness; CPython's refcounting/finalizer "
+            "timing is the runtime behaviour the model cannot exhibit (named, covered only by the monitor). The "
+            "transitive-closure form of clearGraph_clears_upstream (all tensors reachable through creators, for "
+            "any DAG) is obtained by iterating the two proved lemmas; the single closed-form statement is not "
+            "proved.",
 }
